@@ -19,9 +19,17 @@ try:
   r1 = sh('cd %s && /venv/bin/python %s' % (wt, demo)); out['ran'].append({'cmd': 'demo with patch', 'rc': r1.returncode, 'tail': r1.stdout[-600:]})
   ok = r0.returncode == 0 and ra.returncode == 0 and r1.returncode != 0
   if tests:
-    rt = sh('cd %s && /venv/bin/python -m pytest -q -p no:cacheprovider -x %s' % (wt, ' '.join(tests)))
-    out['ran'].append({'cmd': 'pytest ' + ' '.join(tests) + ' (with patch)', 'rc': rt.returncode, 'tail': rt.stdout[-300:]})
-    out['existing_tests_pass_with_patch'] = rt.returncode == 0
+    rt = sh('cd %s && /venv/bin/python -m pytest -q -rf -p no:cacheprovider %s' % (wt, ' '.join(tests)))
+    stable = set(json.load(open('/root/.vp/BASELINE.json'))['stable_pass'])
+    failed = []
+    for ln in rt.stdout.splitlines():
+      if ln.startswith('FAILED '):
+        t = ln.split()[1]
+        f_, rest = t.split('::', 1)
+        failed.append(f_[:-3].replace('/', '.') + '.' + rest)
+    bad = [t for t in failed if t in stable]
+    out['ran'].append({'cmd': 'pytest ' + ' '.join(tests) + ' (with patch)', 'rc': rt.returncode, 'tail': rt.stdout[-300:], 'failed_outside_pinned_suite': [t for t in failed if t not in stable], 'failed_pinned': bad})
+    out['existing_tests_pass_with_patch'] = not bad and ('passed' in rt.stdout)
   out['confirmed'] = ok
   dst = '/verif/seeded/%s' % name
   os.makedirs(dst, exist_ok=True)
